@@ -715,3 +715,29 @@ func verifHosts(l *roundRobinLoadBalancer) []*Host { return l.hosts.Load().([]*H
 //@   requires c != nil && c.config.Resolver != nil && c.logger != nil && conn != nil && conn.closingMu != nil && conn.pending != nil && conn.conn != nil && conn.codec != nil
 //@   ensures hosts-or-error: err == nil ==> len(hosts) > 0 && forall(k, 0, len(hosts), hosts[k] != nil)
 //@   modifies *, conn.pending.$has, conn.pending.$tag, conn.pending.$val
+
+// ---------------------------------------------------------------------------------------------
+// C17 / C01: the session's pool table. Session.Send, and the handlers of Add/Remove events, use whatever
+// is filed under a host key as a *connPool; so every writer must file a real pool ("never nil").
+// (sync.Map is a black box for the engine: the invariant is enforced at the writers.)
+// ---------------------------------------------------------------------------------------------
+
+//@ func proxycore.connectPool
+//@   trusted
+//@   ensures result1 == nil ==> result0 != nil
+//@   modifies nothing
+
+// the goroutine started per host of the bootstrap event
+//@ func proxycore.Session.OnEvent$1$1 [C17, C01]
+//@   captures s != nil
+//@   local $poolFiledNil bool = false
+//@   before sync.Map.Store#* set $poolFiledNil = $poolFiledNil || arg2 == nil || valof(arg2) == 0
+//@   ensures files-only-pools: !$poolFiledNil
+//@   modifies *
+
+//@ func proxycore.Session.OnEvent [C17, C01]
+//@   local $poolFiledNil bool = false
+//@   requires s != nil
+//@   before sync.Map.LoadOrStore#* set $poolFiledNil = $poolFiledNil || arg2 == nil || valof(arg2) == 0
+//@   ensures files-only-pools: !$poolFiledNil
+//@   modifies *
